@@ -36,6 +36,18 @@ func init() {
 		for _, w := range []Dec{finDec(false, big.NewInt(3), 4), finDec(false, big.NewInt(8), 4), finDec(true, big.NewInt(5), 4), finDec(true, big.NewInt(93), 3)} {
 			g.emit(mkA("exp", wctx, w, w, 0, "", fresh), "exp/witness")
 		}
+		// fixed witnesses of the recorded finding "Pow loses accuracy for integer exponents beyond 10^6"
+		for _, w := range []struct {
+			c    Ctx
+			x, y Dec
+		}{
+			{Ctx{P: 12, Emin: -100000, Emax: 100000, R: "down"}, finDec(false, big.NewInt(1000000000267), -12), finDec(true, big.NewInt(2), 12)},
+			{Ctx{P: 14, Emin: -100000, Emax: 100000, R: "05up"}, finDec(false, big.NewInt(100000000000954), -14), finDec(false, big.NewInt(1), 15)},
+		} {
+			ev := mkA("pow", w.c, w.x, w.y, 0, "", fresh)
+			ev.H = lnHint(w.x, w.c.P)
+			g.emit(ev, "pow/witness")
+		}
 		n := g.pick(1800, 60000)
 		for i := 0; i < n; i++ {
 			p := g.R.between(1, 12)
@@ -110,8 +122,21 @@ func init() {
 				} else {
 					y = finDec(g.R.Intn(3) == 0, g.R.digits(g.R.between(1, 6)), -g.R.between(1, 5))
 				}
+				bigInt := false
+				if g.R.Intn(6) == 0 { // x close to 1 raised to a large integer power written in E-notation
+					k := g.R.between(4, p+3)
+					b := new(big.Int).Exp(big.NewInt(10), big.NewInt(int64(k)), nil)
+					b.Add(b, big.NewInt(int64(g.R.between(1, 999))))
+					x = finDec(false, b, -k)
+					j := g.R.between(k-2, k+1)
+					if j > 5 { // apd provisions guard digits for exponents of at most 6 digits (recorded finding beyond that)
+						j = 5
+					}
+					y = finDec(g.R.Intn(4) == 0, big.NewInt(int64(g.R.between(1, 9))), j)
+					bigInt = true
+				}
 				ev := mkA("pow", c, x, y, 0, "", fresh)
-				if !(y.E >= 0) && x.F == 0 && !x.N && len(x.C) > 0 {
+				if (!(y.E >= 0) || bigInt) && x.F == 0 && !x.N && len(x.C) > 0 {
 					ev.H = lnHint(x, p)
 				}
 				g.emit(ev, "pow")
